@@ -50,8 +50,8 @@ func (memPool *MemPool) AddRequest(ctx context.Context, txid bitcoin.Hash32,
 			// logger.Debug(ctx, "Txid marked as trusted : %s", txid.String())
 			memTx.trusted = true
 		}
-		if len(memTx.outPoints) > 0 {
-			return true, false // Already in the mempool
+		if len(memTx.outPoints) > 0 || memTx.received {
+			return true, false // Already in the mempool, or received and waiting to be processed
 		}
 	} else {
 		// Add tx
@@ -66,6 +66,21 @@ func (memPool *MemPool) AddRequest(ctx context.Context, txid bitcoin.Hash32,
 	}
 
 	return false, false // Another request is still active
+}
+
+// MarkReceived records that the body of a tx has been received from a peer. It is called when the
+// tx message is read, before the tx is queued for processing, so that announcements that arrive
+// while it waits in the queue don't cause it to be requested again.
+func (memPool *MemPool) MarkReceived(ctx context.Context, txid bitcoin.Hash32) {
+	memPool.mutex.Lock()
+	defer memPool.mutex.Unlock()
+
+	memTx, exists := memPool.txs[txid]
+	if !exists {
+		memTx = newMemPoolTx(time.Now(), false)
+		memPool.txs[txid] = memTx
+	}
+	memTx.received = true
 }
 
 // Adds a timestamped tx hash to the mempool
@@ -246,6 +261,7 @@ type memPoolTx struct {
 	time      time.Time
 	outPoints []wire.OutPoint
 	trusted   bool
+	received  bool // the body has been received, it might still be waiting to be processed
 }
 
 func newMemPoolTx(t time.Time, trusted bool) *memPoolTx {
